@@ -82,3 +82,101 @@ VF_E int* a0_end(A0& a) { return a.end(); }
 VF_E size_t a0_size(A0 const& a) { return a.size(); }
 VF_E bool a0_empty(A0 const& a) { return a.empty(); }
 }
+
+// ------------------------------------------------------------------ extents / layout mappings / mdspan over the patterns of patterns.def
+#include <etl/mdspan.hpp>
+namespace vf {
+#if VF_IT == 1
+using IT = etl::size_t;
+#elif VF_IT == 2
+using IT = unsigned char;
+#else
+using IT = int;
+#endif
+using OT = long;  // a second index type for the converting constructors / heterogeneous comparison
+#define VD etl::dynamic_extent
+template <size_t R, typename I> struct mk;
+template <typename I> struct mk<0, I> { template <size_t A, size_t B, size_t C> using ext = etl::extents<I>; using dex = etl::extents<I>; };
+template <typename I> struct mk<1, I> { template <size_t A, size_t B, size_t C> using ext = etl::extents<I, A>; using dex = etl::extents<I, VD>; };
+template <typename I> struct mk<2, I> { template <size_t A, size_t B, size_t C> using ext = etl::extents<I, A, B>; using dex = etl::extents<I, VD, VD>; };
+template <typename I> struct mk<3, I> { template <size_t A, size_t B, size_t C> using ext = etl::extents<I, A, B, C>; using dex = etl::extents<I, VD, VD, VD>; };
+
+template <typename T, typename V, size_t... Is> static void ctor_pack(T* out, V const* v, etl::index_sequence<Is...>) { new (out) T(v[Is]...); }
+template <typename T, typename P, typename V, size_t... Is> static void ctor_ptr_pack(T* out, P p, V const* v, etl::index_sequence<Is...>) { new (out) T(p, v[Is]...); }
+template <size_t N, typename V> static auto arr_of(V const* v) -> etl::array<V, N> { etl::array<V, N> a{}; for (size_t i = 0; i < N; ++i) { a[i] = v[i]; } return a; }
+template <typename M, size_t... Is> static auto call_map(M const& m, IT const* ix, etl::index_sequence<Is...>) { return m(ix[Is]...); }
+template <typename M, size_t... Is> static auto call_at(M const& m, IT const* ix, etl::index_sequence<Is...>) -> int* { return &m(ix[Is]...); }
+template <typename M> static auto flags_of() -> unsigned { return unsigned(M::is_always_unique()) | unsigned(M::is_always_exhaustive()) << 1 | unsigned(M::is_always_strided()) << 2; }
+
+#define VP(name, R, A, B, C, sfx)                                                                                      \
+    using E_##name  = mk<R, IT>::ext<A, B, C>;                                                                         \
+    using DE_##name = mk<R, IT>::dex;                                                                                  \
+    using OE_##name = mk<R, OT>::dex;                                                                                  \
+    VF_E size_t name##_rank() { return E_##name::rank(); }                                                             \
+    VF_E size_t name##_rank_dynamic() { return E_##name::rank_dynamic(); }                                             \
+    VF_E size_t name##_static_extent(size_t k) { return E_##name::static_extent(k); }                                  \
+    VF_E IT name##_extent(E_##name const& e, size_t k) { return e.extent(k); }                                         \
+    VF_E void name##_ctor_default(E_##name* out) { new (out) E_##name(); }                                             \
+    VF_E void name##_ctor_dyn(E_##name* out, IT const* v) { ctor_pack(out, v, etl::make_index_sequence<E_##name::rank_dynamic()>{}); } \
+    VF_E void name##_ctor_all(E_##name* out, IT const* v) { ctor_pack(out, v, etl::make_index_sequence<R>{}); }        \
+    VF_E void name##_ctor_arr_dyn(E_##name* out, IT const* v) { auto a = arr_of<E_##name::rank_dynamic()>(v); new (out) E_##name(a); } \
+    VF_E void name##_ctor_arr_all(E_##name* out, IT const* v) { auto a = arr_of<R>(v); new (out) E_##name(a); }        \
+    VF_E void name##_ctor_span_dyn(E_##name* out, IT const* v) { auto a = arr_of<E_##name::rank_dynamic()>(v); new (out) E_##name(etl::span<IT const, E_##name::rank_dynamic()>(a)); } \
+    VF_E void name##_ctor_span_all(E_##name* out, IT const* v) { auto a = arr_of<R>(v); new (out) E_##name(etl::span<IT const, R>(a)); } \
+    VF_E bool name##_eq(E_##name const& a, E_##name const& b) { return a == b; }                                       \
+    VF_E bool name##_eq_dex(E_##name const& a, DE_##name const& b) { return a == b; }                                  \
+    VF_E bool name##_eq_odex(E_##name const& a, OE_##name const& b) { return a == b; }                                 \
+    VF_E void name##_from_dex(E_##name* out, DE_##name const& o) { new (out) E_##name(o); }                            \
+    VF_E void name##_to_dex(DE_##name* out, E_##name const& o) { new (out) DE_##name(o); }                             \
+    VF_E void name##_from_odex(E_##name* out, OE_##name const& o) { new (out) E_##name(o); }                           \
+    VF_E void name##_to_odex(OE_##name* out, E_##name const& o) { new (out) OE_##name(o); }                            \
+    VF_E size_t name##_fwd(E_##name const& e, size_t k) { return e.fwd_prod_of_extents(k); }                           \
+    VF_E size_t name##_rev(E_##name const& e, size_t k) { return e.rev_prod_of_extents(k); }
+#include "patterns.def"
+#undef VP
+
+// ---- layout_left / layout_right mappings -----------------------------------------------------------------------------------------
+template <typename M> static auto stride_of(M const& m, size_t k) -> IT { if constexpr (M::extents_type::rank() > 0) { return m.stride(k); } else { (void)m; (void)k; return 0; } }
+// rank 0: clang-14 (the lowering front end) rejects layout_left/right::mapping<extents<I>>::operator()() ("invalid reference to function 'stride': constraints
+// not satisfied" inside the empty fold, layout_left.hpp:68 / layout_right.hpp:71; g++ accepts) -> the rank-0 call is not lowered for these two layouts
+template <typename M> static auto call_map_r(M const& m, IT const* ix) -> IT { if constexpr (M::extents_type::rank() > 0) { return call_map(m, ix, etl::make_index_sequence<M::extents_type::rank()>{}); } else { (void)m; (void)ix; return 0; } }
+#define VLAY(name, R, P, L)                                                                                            \
+    using M_##P##name  = etl::L::mapping<E_##name>;                                                                    \
+    using DM_##P##name = etl::L::mapping<DE_##name>;                                                                   \
+    VF_E void name##_##P##_ctor_default(M_##P##name* out) { new (out) M_##P##name(); }                                 \
+    VF_E void name##_##P##_ctor(M_##P##name* out, E_##name const& e) { new (out) M_##P##name(e); }                     \
+    VF_E void name##_##P##_copy(M_##P##name* out, M_##P##name const& m) { new (out) M_##P##name(m); }                  \
+    VF_E E_##name const* name##_##P##_extents(M_##P##name const& m) { return &m.extents(); }                           \
+    VF_E IT name##_##P##_rss(M_##P##name const& m) { return m.required_span_size(); }                                  \
+    VF_E IT name##_##P##_stride(M_##P##name const& m, size_t k) { return stride_of(m, k); }                            \
+    VF_E IT name##_##P##_map(M_##P##name const& m, IT const* ix) { return call_map_r(m, ix); }                         \
+    VF_E unsigned name##_##P##_flags(M_##P##name const& m) { return flags_of<M_##P##name>() | unsigned(m.is_unique()) << 3 | unsigned(m.is_exhaustive()) << 4 | unsigned(m.is_strided()) << 5; } \
+    VF_E bool name##_##P##_eq(M_##P##name const& a, M_##P##name const& b) { return a == b; }                           \
+    VF_E bool name##_##P##_eq_dex(M_##P##name const& a, DM_##P##name const& b) { return a == b; }                      \
+    VF_E void name##_##P##_from_dex(M_##P##name* out, DM_##P##name const& o) { new (out) M_##P##name(o); }             \
+    VF_E void name##_##P##_to_dex(DM_##P##name* out, M_##P##name const& o) { new (out) DM_##P##name(o); }
+#define VP(name, R, A, B, C, sfx) VLAY(name, R, ll, layout_left) VLAY(name, R, lr, layout_right)
+#include "patterns.def"
+#undef VP
+// left <-> right for rank <= 1
+#define VCONV(name) \
+    VF_E void name##_ll_from_lr(M_ll##name* out, M_lr##name const& o) { new (out) M_ll##name(o); } \
+    VF_E void name##_lr_from_ll(M_lr##name* out, M_ll##name const& o) { new (out) M_lr##name(o); }
+VCONV(e) VCONV(e0) VCONV(e1) VCONV(e3) VCONV(ed)
+
+// ---- layout_stride mapping (required_span_size, is_exhaustive, operator== and the converting constructor are declared but not defined) ----
+// rank 0: mapping(extents, strides) is ill-formed (layout_stride.hpp:41 `array{...}` with an empty pack cannot deduce) -> default construction only
+template <typename M, typename E, typename S> static void ls_ctor(M* out, E const& e, S const& s) { if constexpr (E::rank() > 0) { new (out) M(e, s); } else { (void)e; (void)s; new (out) M(); } }
+#define VP(name, R, A, B, C, sfx)                                                                                      \
+    using M_ls##name = etl::layout_stride::mapping<E_##name>;                                                          \
+    VF_E void name##_ls_ctor_default(M_ls##name* out) { new (out) M_ls##name(); }                                      \
+    VF_E void name##_ls_ctor_arr(M_ls##name* out, E_##name const& e, IT const* s) { auto a = arr_of<R>(s); ls_ctor(out, e, a); } \
+    VF_E void name##_ls_ctor_span(M_ls##name* out, E_##name const& e, IT const* s) { auto a = arr_of<R>(s); ls_ctor(out, e, etl::span<IT const, R>(a)); } \
+    VF_E E_##name const* name##_ls_extents(M_ls##name const& m) { return &m.extents(); }                               \
+    VF_E IT name##_ls_stride(M_ls##name const& m, size_t k) { return m.stride(k); }                                    \
+    VF_E void name##_ls_strides(M_ls##name const& m, IT* out) { auto a = m.strides(); for (size_t i = 0; i < R; ++i) { out[i] = a[i]; } } \
+    VF_E IT name##_ls_map(M_ls##name const& m, IT const* ix) { return call_map(m, ix, etl::make_index_sequence<R>{}); } \
+    VF_E unsigned name##_ls_flags(M_ls##name const& m) { return flags_of<M_ls##name>() | unsigned(m.is_unique()) << 3 | unsigned(m.is_strided()) << 5; }
+#include "patterns.def"
+#undef VP
+}
